@@ -118,7 +118,7 @@ def _mk_txn(desc, amount, fk, src, y, m, d):
     return {'description': desc, 'amount': amount, 'field': {'k': fk}, 'source': src, 'date': date(y, m, d)}
 
 
-def real_conditions(tname, dlen=3, slen=2, via='engine', gseed=0, refcheck=False):
+def real_conditions(tname, dlen=3, slen=2, via='engine', gseed=0, refcheck=False, focus='all'):
     """Real MerchantEngine.match (or normalize_merchant through the cached engine) on a template whose pattern
     and threshold constants are symbolic, against the independent first-match oracle of harness.tmpl."""
     from harness import tmpl
@@ -126,14 +126,7 @@ def real_conditions(tname, dlen=3, slen=2, via='engine', gseed=0, refcheck=False
     DLEN, SLEN = dlen, slen
     text = tmpl.TEMPLATES[tname] if tname in tmpl.TEMPLATES else tmpl.generated(400, gseed)[tname]
 
-    def ob(desc: str, amount: int, s1: str, s2: str, s3: str, s4: str, n1: int, n2: int, n3: int,
-           fk: str, src: str, y: int, m: int, d: int) -> bool:
-        """
-        pre: len(desc) <= DLEN and len(s1) <= SLEN and len(s2) <= SLEN and len(s3) <= SLEN and len(s4) <= SLEN
-        pre: len(fk) <= SLEN and len(src) <= SLEN
-        pre: 2024 <= y <= 2025 and 1 <= m <= 12 and 1 <= d <= 28
-        post: _
-        """
+    def core(desc='ab', amount=5, s1='a', s2='a', s3='S', s4='k', n1=3, n2=9, n3=4, fk='k', src='S', y=2024, m=12, d=7):
         reset_tally_caches()
         values = {'@P1': s1, '@P2': s2, '@P3': s3, '@P4': s4, 9001: n1, 9002: n2, 9003: n3}
         eng = tmpl.load(text, values)
@@ -185,7 +178,52 @@ def real_conditions(tname, dlen=3, slen=2, via='engine', gseed=0, refcheck=False
             r2 = e2.match(dict(txn))
             ok = ok and (r2.matched, r2.merchant, r2.category, r2.subcategory) == got
         return post(ok)
-    return ob
+
+    def ob(desc: str, amount: int, s1: str, s2: str, s3: str, s4: str, n1: int, n2: int, n3: int,
+           fk: str, src: str, y: int, m: int, d: int) -> bool:
+        """
+        pre: len(desc) <= DLEN and len(s1) <= SLEN and len(s2) <= SLEN and len(s3) <= SLEN and len(s4) <= SLEN
+        pre: len(fk) <= SLEN and len(src) <= SLEN
+        pre: 2024 <= y <= 2025 and 1 <= m <= 12 and 1 <= d <= 28
+        post: _
+        """
+        return core(desc, amount, s1, s2, s3, s4, n1, n2, n3, fk, src, y, m, d)
+
+    # Only the inputs an obligation needs are symbolic (DESIGN 7.2): three focus groups per rule file; the others keep the defaults of core()
+    def ob_text(desc: str, s1: str, s2: str) -> bool:
+        """
+        pre: len(desc) <= DLEN and len(s1) <= SLEN and len(s2) <= SLEN
+        post: _
+        """
+        return core(desc=desc, s1=s1, s2=s2)
+
+    def ob_text2(desc: str, s1: str, s2: str) -> bool:
+        """
+        pre: len(desc) <= DLEN and len(s1) <= SLEN and len(s2) <= SLEN
+        post: _
+        """
+        return core(desc=desc, s1=s1, s2=s2, amount=1, src='T', fk='j')       # the other side of every amount / source / field test
+
+    def ob_context(src: str, s3: str, fk: str, s4: str, big: bool) -> bool:
+        """
+        pre: len(src) <= SLEN and len(s3) <= SLEN and len(fk) <= SLEN and len(s4) <= SLEN
+        post: _
+        """
+        return core(src=src, s3=s3, fk=fk, s4=s4, amount=5 if big else 1)
+
+    def ob_numbers(amount: int, n1: int, n2: int, n3: int) -> bool:
+        """
+        post: _
+        """
+        return core(amount=amount, n1=n1, n2=n2, n3=n3)
+
+    def ob_dates(amount: int, n1: int, y: int, m: int, d: int) -> bool:
+        """
+        pre: 2024 <= y <= 2025 and 1 <= m <= 12 and 1 <= d <= 28
+        post: _
+        """
+        return core(amount=amount, n1=n1, y=y, m=m, d=d)
+    return {'all': ob, 'text': ob_text, 'text2': ob_text2, 'context': ob_context, 'numbers': ob_dates if tname.startswith('dates') else ob_numbers}[focus]
 
 
 # ----------------------------------------------------------------------------- 3. Unknown fallback
@@ -413,19 +451,33 @@ def obligations(tier, seed):
                               bounds=f'3 rules (fuzzy("AB", t), fuzzy(field.k, "ABA"), contains("B")); ' + (f'description <= {fl} chars over {FALPHA!r} (one concrete text per path), symbolic threshold in (0, 1]' if focus == 'description'
                                                                                                           else f'field value <= {fl + 1} chars over "AB", description <= 1 char over "Bx"')))
     dl, sl = (2, 1) if q else (3, 2)
+    FOCUS = {'text': 'description and the two pattern constants symbolic (description <= %d, constants <= %d ASCII chars)',
+             'text2': 'as text, with the fixed amount / source / field on the other side of the files\' tests (description <= %d, constants <= %d)',
+             'context': 'source, custom field and the constants they are compared with symbolic (<= %d chars), amount on either side of the thresholds',
+             'numbers': 'integer amount and the three thresholds symbolic (dates templates: amount, one threshold, date in 2024-2025)'}
+    fdl, fsl = (3, 2) if q else (4, 2)       # per focus group the strings can be longer than when everything is symbolic at once
+    HEAVY = {('srcvars', 'context'): (3, 1), ('fields2', 'context'): (3, 1), ('funcs1', 'text'): (2, 2), ('funcs1', 'text2'): (2, 2)}    # quick tier: shorter strings where the focus group alone is large
     for t in tnames:
-        obs.append(Obligation(id=f'real-{t}', factory='real_conditions', params={'tname': t, 'dlen': dl, 'slen': sl, 'refcheck': True},
-                              timeout=170 if q else 1500, group='real conditions',
-                              bounds=f'template {t}: description <= {dl}, string constants/field/source <= {sl} ASCII chars, integer amount and thresholds, date in 2024-2025'))
+        for focus in FOCUS:
+            xdl, xsl = HEAVY.get((t, focus), (fdl, fsl)) if q else (fdl, fsl)
+            obs.append(Obligation(id=f'real-{t}-{focus}', factory='real_conditions', params={'tname': t, 'dlen': xdl, 'slen': xsl, 'refcheck': True, 'focus': focus},
+                                  timeout=170 if q else 900, group='real conditions',
+                                  bounds=f'template {t}: ' + (FOCUS[focus] % ((xdl, xsl) if focus.startswith('text') else (xsl,) if focus == 'context' else ())) + '; the other inputs fixed'))
+        if not q:
+            obs.append(Obligation(id=f'real-{t}', factory='real_conditions', params={'tname': t, 'dlen': dl, 'slen': sl, 'refcheck': True},
+                                  timeout=1500, group='real conditions',
+                                  bounds=f'template {t}: everything symbolic at once - description <= {dl}, string constants/field/source <= {sl} ASCII chars, integer amount and thresholds, date in 2024-2025'))
     for t in (['letshadow', 'fields1', 'vars2'] if q else tnames):
-        obs.append(Obligation(id=f'norm-{t}', factory='real_conditions', params={'tname': t, 'dlen': dl, 'slen': sl, 'via': 'normalize'},
-                              timeout=170 if q else 1500, group='normalize_merchant, engine path',
-                              bounds=f'template {t} through normalize_merchant with the cached engine; description <= {dl}, constants <= {sl}'))
+        for focus in FOCUS:
+            obs.append(Obligation(id=f'norm-{t}-{focus}', factory='real_conditions', params={'tname': t, 'dlen': fdl, 'slen': fsl, 'via': 'normalize', 'focus': focus},
+                                  timeout=170 if q else 900, group='normalize_merchant, engine path',
+                                  bounds=f'template {t} through normalize_merchant with the cached engine: ' + (FOCUS[focus] % ((fdl, fsl) if focus.startswith('text') else (fsl,) if focus == 'context' else ()))))
     for t in list(_t.generated(8 if q else 60, seed)):
-        # thorough: many more generated files at the quick string bounds (breadth); the hand-written templates above get the longer strings (depth)
-        obs.append(Obligation(id=f'real-{t}', factory='real_conditions', params={'tname': t, 'dlen': 2, 'slen': 1, 'gseed': seed, 'refcheck': True},
-                              timeout=170 if q else 300, group='real conditions (generated rule files)',
-                              bounds=f'generated rule file {t} (2-3 random rule blocks + the global variables they use, VERIF_SEED={seed}): description <= 2, constants <= 1'))
+        # thorough: many more generated files (breadth); the hand-written templates above also get the everything-at-once obligation (depth)
+        for focus in FOCUS:
+            obs.append(Obligation(id=f'real-{t}-{focus}', factory='real_conditions', params={'tname': t, 'dlen': 2, 'slen': 1 if focus.startswith('text') else 2, 'gseed': seed, 'refcheck': True, 'focus': focus},
+                                  timeout=170 if q else 300, group='real conditions (generated rule files)',
+                                  bounds=f'generated rule file {t} (2-3 random rule blocks + the global variables they use, VERIF_SEED={seed}): ' + (FOCUS[focus] % ((2, 1) if focus.startswith('text') else (2,) if focus == 'context' else ()))))
     for path in ['engine', 'legacy']:
         obs.append(Obligation(id=f'unknown-{path}', factory='unknown_name', params={'path': path, 'dlen': 2 if q else 3}, timeout=170 if q else 1500,
                               group='Unknown fallback', bounds=f'description <= {2 if q else 3} chars over the alphabet (a,B,1,blank,-); two different amounts/dates/sources/fields'))
